@@ -213,6 +213,23 @@ CHECKS = {
         "the Go scheduler produces; the theorems cover all of them.",
    technique="Coq proof (invariants over all interleavings of a producer/consumer transition system; termination measure) + outcome-set conformance of the real driver against the extracted model",
    design="DESIGN.md section 6, C19"),
+ "C20": dict(
+   text="Coq: any number of goroutines, each with its own handle, any operations - functions of (package-level state, files, the own handle's state) - under any interleaving "
+        "(Model/Conc.v). Proved: every goroutine's results and its handle's final state are those of its own operations run alone (C20_isolation, C20_independent_of_others; instance for "
+        "the handle state machine of Model/DbState.v: C20_dbstate_handles); no two accesses of different goroutines to one location include a write (C20_race_free); the one cell the "
+        "driver's producer and consumer share, rows.err, is read only after its write and the synchronising event (C20_driver_err_cell_ordered, over Model/Driver.v). The code's side of "
+        "the frame condition is a proof obligation over Gen/Footprint.v, regenerated from the sources on every build by a go/types analysis (harness/cmd/footprint): the list of uses of "
+        "package-level variables outside init that are not plain reads (assignment, store through index/field/pointer, delete/clear/copy/append, address-of, pointer-receiver method, "
+        "handing a map/slice/pointer on) must be empty (C20_shared_state_is_read_only), and the only go statement is the modelled producer (C20_library_goroutines). Every run: scenarios "
+        "of N goroutines x M operations on own handles (same file, two files), database/sql pools with shared prepared statements, Query+Close at once, close/cancel after k; each run "
+        "sequentially and several times concurrently under the race detector with varying GOMAXPROCS and random yields; every operation's digest must equal the sequential one and the "
+        "race detector must stay silent. A race or a differing result is the replay; a broken footprint obligation without one is reported with no-failing-input-found.",
+   note="That the code's operations have the footprint the model assumes rests on the syntactic analysis plus the race detector (writes through unsafe / reflection are invisible to the "
+        "former; the module uses neither outside the pager's mmap). POSIX fcntl locks are per process: two handles of one process on the same file share them (C06 known findings "
+        "same-process-unlock / same-process-close) - this does not change any result while no writer is active, which is what C20 states; with a concurrent writer it is the C06 finding. "
+        "Callers writing the exported db.CollateFuncs / db.DefaultCollate while handles are in use are outside the property.",
+   technique="Coq proof (isolation / non-interference over all schedules; frame obligation over a footprint regenerated from source) + race-detector differential against sequential execution",
+   design="DESIGN.md section 6, C20"),
 }
 
 NOT_YET = {}
